@@ -169,7 +169,8 @@ class PydanticConverter:
         )
 
     def convert_inputs(self, data: str) -> Params:
-        loaded = dict(self.input_pydantic_model.model_validate_json(data))
+        # a job without arguments has an empty payload
+        loaded = dict(self.input_pydantic_model.model_validate_json(data or "{}"))
 
         if self.args:
             return ([loaded.pop(arg) for arg in self.args], loaded)
